@@ -677,6 +677,10 @@ fn pairs() -> Vec<(String, String, String)> {
     v.push(("len32".into(), u32_, o32));
     // SASLprep changes these: ligature -> "fi", soft hyphen removed, NBSP -> space, Roman numeral -> "IX"
     v.push(("saslprep".into(), "\u{fb01}x\u{ad}pw\u{a0}1".into(), "\u{2168} owner".into()));
+    // longer than 127 bytes with a multi-byte character across offset 127 (R >= 5 only)
+    for (n, u, o) in menu::straddling_pairs() {
+        v.push((n.to_string(), u, o));
+    }
     v
 }
 
@@ -774,7 +778,7 @@ fn cases(run: &Run) -> Vec<Case> {
                     if r <= 4 && (!rc::pdfdoc_encodable(user) || !rc::pdfdoc_encodable(owner)) {
                         continue;
                     }
-                    if r <= 4 && pname == "saslprep" {
+                    if r <= 4 && (pname == "saslprep" || pname.starts_with("cut127")) {
                         continue;
                     }
                     // revision 6 costs ~40 ms per case (Algorithm 2.B): the quick bound takes every sixth
